@@ -413,9 +413,14 @@ class World(object):
         if initial_data is not SENTINEL:
             if is_pulled:
                 assert src_sim.outputs is not None
-                src_sim.outputs.setdefault(
-                    -int(time_shifted), {}
-                ).setdefault(src.eid, {})[src_attr] = initial_data
+                # The initial data stands for the source's output at
+                # every time before the start that the destination can
+                # still ask for. (Another connection from the same
+                # simulator may create a cache entry in between.)
+                for cache_time in range(-int(time_shifted), 0) or [0]:
+                    src_sim.outputs.setdefault(
+                        cache_time, {}
+                    ).setdefault(src.eid, {})[src_attr] = initial_data
             else:
                 dest_sim.persistent_inputs.setdefault(
                     dest.eid, {}
